@@ -21,10 +21,16 @@ Ftp::ParseIpPort(const char *buf, const char *forceIp, Ip::Address &addr)
     int p1, p2;
     // the field width keeps huge numbers from overflowing (and wrapping to a
     // plausible value); anything above 255 is rejected below anyway
-    const int n = sscanf(buf, "%4d,%4d,%4d,%4d,%4d,%4d",
-                         &h1, &h2, &h3, &h4, &p1, &p2);
+    int parsed = 0;
+    const int n = sscanf(buf, "%4d,%4d,%4d,%4d,%4d,%4d%n",
+                         &h1, &h2, &h3, &h4, &p1, &p2, &parsed);
 
     if (n != 6 || p1 < 0 || p2 < 0 || p1 > 255 || p2 > 255)
+        return false;
+
+    // the field width may have cut the last number short (the others must
+    // be followed by a comma): "4,-0008" is not p2=0 and "4,02559" is not p2=255
+    if (xisdigit(buf[parsed]))
         return false;
 
     if (h1 < 0 || h2 < 0 || h3 < 0 || h4 < 0 || h1 > 255 || h2 > 255 || h3 > 255 || h4 > 255)
@@ -60,7 +66,7 @@ Ftp::ParseProtoIpPort(const char *buf, Ip::Address &addr)
     const char delim = *buf;
     const char *s = buf + 1;
     const char *e = s;
-    const int proto = strtol(s, const_cast<char**>(&e), 10);
+    const long proto = strtol(s, const_cast<char**>(&e), 10); // long: huge values must not wrap to 1 or 2
     if ((proto != 1 && proto != 2) || *e != delim)
         return false;
 
